@@ -16,57 +16,73 @@
 (*            allocation of whichever decoder runs onto it                 *)
 (*            (EbDecMemInit.h:73-94), svt_av1_dec_deinit frees everything  *)
 (*            reachable from it (EbDecHandle.c:648-)                       *)
+(* The rebuild is not atomic: while an init is in progress the tables pass  *)
+(* through partial states (e.g. the convolve function table is re-filled   *)
+(* entry by entry, asm_set_convolve_asm_table), whatever the values.       *)
 (* Each instance is otherwise a private state machine (Api.tla).           *)
 (*                                                                         *)
 (* NoInterference: no encoder step ever reads a geometry or dispatch table *)
 (* that is not the one its own init built; no decoder frees or loses       *)
 (* memory of another live decoder.  TLC shows for which populations the    *)
-(* DESIGN guarantees it: identical (sb size, cpu flags) encoders plus at   *)
-(* most one decoder.                                                       *)
+(* DESIGN guarantees it: encoders with identical (sb size, cpu flags) that *)
+(* are ALL initialised before any of them encodes (Barrier = TRUE, a usage *)
+(* discipline the application must provide), plus at most one decoder.     *)
 (***************************************************************************)
 EXTENDS Integers, Sequences, FiniteSets, TLC
 
 CONSTANTS Enc, Dec,        \* instance identifiers
           Sb, Flags,       \* Enc -> superblock size, Enc -> cpu flag set
+          Barrier,         \* TRUE: the application initialises every encoder before any of them starts encoding
           Steps,           \* encode/decode steps per instance
           Allocs           \* allocations a decoder makes per phase (init, and lazily at the first frame)
 
-VARIABLES est, ecnt,       \* encoder: "new" | "run" | "done", steps taken
+VARIABLES est, ecnt,       \* encoder: "new" | "init" | "run" | "done", steps taken
+          builders,        \* encoders inside svt_av1_enc_init (tables partially rebuilt)
           dst, dcnt,       \* decoder: "new" | "handle" | "run" | "done", steps taken
           geom, rtcd,      \* globals (0 / {} = never built)
           head,            \* global allocation list: sequence of owners (one entry per allocation)
           mine,            \* Dec -> number of allocations the instance made and has not seen freed
           bad              \* set of interference witnesses
 
-vars == <<est, ecnt, dst, dcnt, geom, rtcd, head, mine, bad>>
+vars == <<est, ecnt, builders, dst, dcnt, geom, rtcd, head, mine, bad>>
 
 Init ==
   /\ est = [e \in Enc |-> "new"] /\ ecnt = [e \in Enc |-> 0]
   /\ dst = [d \in Dec |-> "new"] /\ dcnt = [d \in Dec |-> 0]
+  /\ builders = {}
   /\ geom = 0 /\ rtcd = {}
   /\ head = <<>> /\ mine = [d \in Dec |-> 0]
   /\ bad = {}
 
-(* svt_av1_enc_init: rebuilds the global tables for THIS instance *)
-EInit(e) ==
+(* svt_av1_enc_init, two steps: the global tables are being rebuilt for THIS instance ... *)
+EInitBegin(e) ==
   /\ est[e] = "new"
+  /\ est' = [est EXCEPT ![e] = "init"]
+  /\ builders' = builders \cup {e}
+  /\ UNCHANGED <<ecnt, dst, dcnt, geom, rtcd, head, mine, bad>>
+(* ... and are complete, holding this instance's values *)
+EInitEnd(e) ==
+  /\ est[e] = "init"
   /\ est' = [est EXCEPT ![e] = "run"]
+  /\ builders' = builders \ {e}
   /\ geom' = Sb[e]
   /\ rtcd' = Flags[e]
   /\ UNCHANGED <<ecnt, dst, dcnt, head, mine, bad>>
 
-(* any kernel of the encoder pipeline: reads block geometry and calls through the dispatch table *)
+(* any kernel of the encoder pipeline: reads block geometry and calls through the dispatch tables *)
 EStep(e) ==
   /\ est[e] = "run" /\ ecnt[e] < Steps
+  /\ Barrier => \A x \in Enc : est[x] \in {"run", "done"}
   /\ ecnt' = [ecnt EXCEPT ![e] = @ + 1]
-  /\ bad' = bad \cup (IF geom # Sb[e] THEN {<<e, "geometry of another instance", geom>>} ELSE {})
+  /\ bad' = bad \cup {<<e, "tables being rebuilt by", b>> : b \in builders}
+                \cup (IF geom # Sb[e] THEN {<<e, "geometry of another instance", geom>>} ELSE {})
                 \cup (IF rtcd # Flags[e] THEN {<<e, "dispatch table of another instance">>} ELSE {})
-  /\ UNCHANGED <<est, dst, dcnt, geom, rtcd, head, mine>>
+  /\ UNCHANGED <<est, builders, dst, dcnt, geom, rtcd, head, mine>>
 
 EDone(e) ==
   /\ est[e] = "run" /\ ecnt[e] = Steps
   /\ est' = [est EXCEPT ![e] = "done"]
-  /\ UNCHANGED <<ecnt, dst, dcnt, geom, rtcd, head, mine, bad>>
+  /\ UNCHANGED <<ecnt, builders, dst, dcnt, geom, rtcd, head, mine, bad>>
 
 (* svt_av1_dec_init_handle: the global head now designates this handle's (empty) list;            *)
 (* whatever was reachable from the old head is reachable no more                                  *)
@@ -75,7 +91,7 @@ DInitHandle(d) ==
   /\ dst' = [dst EXCEPT ![d] = "handle"]
   /\ head' = <<>>
   /\ bad' = bad \cup {<<o, "allocation list lost: head re-pointed by", d>> : o \in {head[i] : i \in 1 .. Len(head)} \ {d}}
-  /\ UNCHANGED <<est, ecnt, dcnt, geom, rtcd, mine>>
+  /\ UNCHANGED <<est, ecnt, builders, dcnt, geom, rtcd, mine>>
 
 (* EB_MALLOC_DEC in init or (lazily) in the first frames: pushes onto the global list *)
 DAllocStep(d) ==
@@ -84,7 +100,7 @@ DAllocStep(d) ==
   /\ dcnt' = [dcnt EXCEPT ![d] = @ + 1]
   /\ head' = head \o [i \in 1 .. Allocs |-> d]
   /\ mine' = [mine EXCEPT ![d] = @ + Allocs]
-  /\ UNCHANGED <<est, ecnt, geom, rtcd, bad>>
+  /\ UNCHANGED <<est, ecnt, builders, geom, rtcd, bad>>
 
 (* svt_av1_dec_deinit: frees every entry reachable from the global head *)
 DDeinit(d) ==
@@ -96,15 +112,15 @@ DDeinit(d) ==
                      \cup (IF ownCnt # mine[d] THEN {<<d, "own allocations not on the list at teardown (leaked)">>} ELSE {})
        /\ mine' = [o \in Dec |-> IF o \in owners THEN mine[o] - Cardinality({i \in 1 .. Len(head) : head[i] = o}) ELSE mine[o]]
   /\ head' = <<>>
-  /\ UNCHANGED <<est, ecnt, dcnt, geom, rtcd>>
+  /\ UNCHANGED <<est, ecnt, builders, dcnt, geom, rtcd>>
 
-Next == \/ \E e \in Enc : EInit(e) \/ EStep(e) \/ EDone(e)
+Next == \/ \E e \in Enc : EInitBegin(e) \/ EInitEnd(e) \/ EStep(e) \/ EDone(e)
         \/ \E d \in Dec : DInitHandle(d) \/ DAllocStep(d) \/ DDeinit(d)
 Spec == Init /\ [][Next]_vars
 FairSpec == Spec /\ WF_vars(Next)
 
 NoInterference == bad = {}
-TypeOK == /\ \A e \in Enc : est[e] \in {"new", "run", "done"} /\ ecnt[e] \in 0 .. Steps
+TypeOK == /\ \A e \in Enc : est[e] \in {"new", "init", "run", "done"} /\ ecnt[e] \in 0 .. Steps
           /\ \A d \in Dec : dst[d] \in {"new", "handle", "run", "done"} /\ dcnt[d] \in 0 .. Steps
 AllDone == (\A e \in Enc : est[e] = "done") /\ (\A d \in Dec : dst[d] = "done")
 Completes == <>[]AllDone
